@@ -3,6 +3,7 @@
 import json, os, subprocess
 ROOT = os.path.dirname(os.path.abspath(__file__))
 cfg = json.load(open(os.path.join(ROOT, "checks.json")))
+cfg["checks"] = [json.load(open(os.path.join(ROOT, "checks.d", f))) for f in sorted(os.listdir(os.path.join(ROOT, "checks.d"))) if f.endswith(".json")]
 props = [json.loads(l)["id"] for l in open(os.path.join(ROOT, "properties.jsonl")) if l.strip()]
 claimed = {c["id"] for c in cfg["checks"]}
 base = json.load(open("/root/.vp/BASELINE.json"))["cmd"] if os.path.exists("/root/.vp/BASELINE.json") else ""
